@@ -386,6 +386,9 @@ pub struct Gen {
 	/// regimes lasting hundreds of steps, including steady rallies / declines without pullbacks (C07)
 	pub long_regimes: bool,
 	regime_left: u64,
+	/// stretches of bars closing exactly at their high (or low): one-sided money flow, clv = +-1 (C12)
+	pub one_sided: bool,
+	side: i8,
 	calls: u64,
 	pub rng: Rng,
 	scale: f64,
@@ -400,7 +403,7 @@ impl Gen {
 		let scale = *rng.pick(&[1e-3, 0.37, 1.0, 12.5, 100.0, 3e4]);
 		let cur = scale * (0.5 + rng.unit());
 		let shape = rng.below(8);
-		Self { no_zero_volume: false, no_plateau: false, force_drop_at: None, droughts: false, drought_left: 0, long_regimes: false, regime_left: 0, calls: 0, rng, scale, cur, shape, positive }
+		Self { no_zero_volume: false, no_plateau: false, force_drop_at: None, droughts: false, drought_left: 0, long_regimes: false, regime_left: 0, one_sided: false, side: 0, calls: 0, rng, scale, cur, shape, positive }
 	}
 	fn finish(&mut self, mut v: f64) -> f64 {
 		if self.positive {
@@ -491,6 +494,17 @@ impl Gen {
 			1 => 1.0,
 			_ => (self.rng.unit() * 1000.0 + 1.0).floor() * if self.rng.chance(0.3) { 1.37 } else { 1.0 },
 		};
+		let mut close = close;
+		if self.one_sided {
+			if self.rng.chance(0.06) {
+				self.side = [0i8, 1, -1, 0][self.rng.below(4) as usize];
+			}
+			if self.side > 0 {
+				close = high;
+			} else if self.side < 0 {
+				close = low;
+			}
+		}
 		self.cur = close;
 		candle(open, high, low, close, volume)
 	}
